@@ -8,7 +8,7 @@ import (
 )
 
 func init() {
-	register("C13", "Decided: the classification structure of KeepAlive and the reaction of the reconnect loop. R-C13-1 loop shape: wait on a ticker made from the interval parameter, Ping under context.WithTimeout(own ctx, timeout parameter), success continues the loop (every return is on the error edge); R-C13-2 classification order on the error edge: parent context first (returns ctx.Err()), then the timeout context (returns ErrPingTimeout), else the ping error — two separate prioritised tests, and the timeout context is not cancelled before it is tested; R-C13-3 the reconnect loop starts KeepAlive iff PingInterval > 0 for the iteration's own client with a cancellable child context, records a failure on that client, closes that client, and cancels the keep-alive context on every exit of the connected phase; R-C13-4 Ping itself honours its context and registers its waiter before writing. Not decided: actual periodicity, timer accuracy, drift.", checkC13)
+	register("C13", "Decided: the classification structure of KeepAlive and the reaction of the reconnect loop. R-C13-1 loop shape: wait on a ticker made from the interval parameter, Ping under context.WithTimeout(own ctx, timeout parameter), success continues the loop (every return is on the error edge); R-C13-2 classification order on the error edge: parent context first (returns ctx.Err()), then the timeout context (returns ErrPingTimeout), else the ping error — two separate prioritised tests, and the timeout context is not cancelled before it is tested; R-C13-3 the reconnect loop starts KeepAlive iff PingInterval > 0 for the iteration's own client with a cancellable child context, records a failure on that client, closes that client, leaves it with a non-nil Err() so that the loop redials, and cancels the keep-alive context on every exit of the connected phase; R-C13-4 Ping itself honours its context and registers its waiter before writing. Not decided: actual periodicity, timer accuracy, drift.", checkC13)
 	register("C17", "Decided: R-C17-1 RetryClient.Handle stores the handler on every path and forwards the same value to the current client, under the lock; R-C17-2 RetryClient.Connect installs the stored handler on the client (read under the lock) before that client's Connect starts its reader; R-C17-3 every dialled client is connected through RetryClient.SetClient + RetryClient.Connect (BaseClient.Connect has no other caller); R-C17-4 the reader consults the current handler per message, under the lock, and BaseClient.Handle is the only writer. Not decided: messages the broker sends before CONNACK processing finished.", checkC17)
 }
 
